@@ -137,3 +137,72 @@ def run_plan(rep, harness, plan, deadline=None, group_of=None):
             continue
         explore_all(rep, harness, g[name][::stride], bound=bound, budget_per_scenario=budget, deadline=deadline)
         rep.cov.setdefault("plan", []).append({"harness": harness, "group": name, "scenarios": len(g[name][::stride]), "of": len(g[name]), "bound": bound})
+
+
+def build_seq(name):
+    with Lock("vs-" + name):
+        r = subprocess.run([os.path.join(VERIF, "vsched", "build_seq.sh"), name], stdout=subprocess.PIPE, stderr=subprocess.STDOUT, text=True)
+        if r.returncode != 0:
+            raise CheckError("harness %s does not build against the working tree:\n%s" % (name, r.stdout[-3000:]))
+    return os.path.join(VS_OUT, name)
+
+
+def _seq_job(arg):
+    exe, variant, depth, max_states = arg
+    cmd = [exe, "--variant", str(variant), "--depth", str(depth)]
+    if max_states:
+        cmd += ["--max-states", str(max_states)]
+    try:
+        r = subprocess.run(cmd, stdout=subprocess.PIPE, stderr=subprocess.PIPE, text=True, timeout=3000)
+    except subprocess.TimeoutExpired:
+        return {"variant": variant, "error": "timeout"}
+    lines = [l for l in r.stdout.splitlines() if l.startswith("{")]
+    if not lines:
+        return {"variant": variant, "error": "no output rc=%s %s" % (r.returncode, r.stderr[-400:])}
+    d = json.loads(lines[-1])
+    d["variant_index"] = variant
+    return d
+
+
+def run_seq(rep, harness, jobs, classify=None):
+    """jobs: list of (variant, depth, max_states). Explicit-state BFS over operation histories (seqmc.h)."""
+    exe = build_seq(harness)
+    for res in pmap_unordered(_seq_job, [(exe, v, d, m) for v, d, m in jobs]):
+        if "error" in res:
+            rep.error("%s variant %s: %s" % (harness, res.get("variant"), res["error"]))
+            continue
+        rep.add("states", res["states"])
+        rep.add("transitions", res["transitions"])
+        rep.add("traces_validated_against_impl", res["transitions"])
+        rep.add("evaluations", res["transitions"])
+        rep.cov.setdefault("seq_runs", []).append({"harness": harness, "variant": res["variant"], "depth": res.get("depth"), "max_depth_reached": res.get("max_depth"),
+                                                   "states": res["states"], "transitions": res["transitions"], "capped": res.get("capped", False)})
+        if res.get("capped"):
+            rep.capped("%s %s capped at %d states" % (harness, res["variant"], res["states"]))
+        if res.get("sample"):
+            rep.sample({"harness": harness, "variant": res["variant"], "history => state": res["sample"][:300]}, cap=8)
+        v = res.get("violation")
+        if v:
+            if classify:
+                kf = classify(harness, res, v)
+                if kf:
+                    rep.known_finding(kf, v["history"])
+                    continue
+            # replay twice
+            outs = []
+            for _ in range(2):
+                r = subprocess.run([exe, "--variant", str(res["variant_index"]), "--replay", v["raw"]], stdout=subprocess.PIPE, text=True)
+                outs.append((r.returncode, r.stdout.strip()))
+            if outs[0] != outs[1] or outs[0][0] != 1:
+                rep.error("seq violation did not replay deterministically: %s" % (outs,))
+                continue
+            rep.violation("%s [%s]: after history %s: %s" % (harness, res["variant"], v["history"], v["why"]),
+                          {"kind": "seqmc", "harness": harness, "variant": res["variant_index"], "history": v["history"], "raw": v["raw"], "why": v["why"]})
+
+
+def replay_any(obj):
+    if obj.get("kind") == "seqmc":
+        exe = build_seq(obj["harness"])
+        r = subprocess.run([exe, "--variant", str(obj["variant"]), "--replay", obj["raw"]], stdout=subprocess.PIPE, text=True)
+        return r.returncode != 0, r.stdout.strip()
+    return replay_vs(obj)
